@@ -323,3 +323,57 @@ def term_shapes():
         ("LT", ("Plus", ("Times", x, ("lit", 3, INT)), ("lit", 1, INT)), ("lit", 7, INT)),
     ]
     return [Shape(t) for t in sh]
+
+
+# ------------------------------------------------------------------------------------ thorough tier: contexts
+TIER = {"name": "quick"}
+
+
+def set_tier(tier):
+    TIER["name"] = tier
+
+
+def in_contexts(shapes, limit=None):
+    """Thorough tier: every Boolean skeleton is also placed in each of a set of contexts (under a negation, as
+    a conjunct / disjunct next to an unrelated atom, as condition and as branch of an if-then-else, under a
+    binder of an unrelated and of one of its own symbols, twice in the same formula)."""
+    p, q = S("ctx_p"), S("ctx_q")
+    out = list(shapes)
+    n = 0
+    for sh in shapes:
+        t = sh.t if isinstance(sh, Shape) else sh
+        if not _is_boolean_shape(t):
+            continue
+        ctxs = [("Not", t), ("And", p, t), ("Or", t, ("Not", p)), ("Ite", p, t, q), ("Ite", t, p, q), ("Iff", t, ("And", t, p)),
+                ("forall", [("ctx_p", BOOL)], ("Or", t, p)), ("Implies", ("Not", t), ("exists", [("ctx_q", BOOL)], ("And", q, t)))]
+        if "forall" in repr(t) or "exists" in repr(t):
+            # duplicating a quantified skeleton under <-> makes prenex / QE outputs (and their truth tables) explode
+            ctxs = [c for c in ctxs if c[0] != "Iff"]
+        for c in ctxs:
+            out.append(Shape(c) if isinstance(sh, Shape) else c)
+        n += 1
+        if limit and n >= limit:
+            break
+    return out
+
+
+_BOOL_HEADS = {"And", "Or", "Not", "Implies", "Iff", "LT", "LE", "Equals", "forall", "exists", "BVULT", "BVULE", "BVSLT",
+               "BVSLE", "StrContains", "StrPrefixOf", "StrSuffixOf", "GE", "GT", "EqualsOrIff"}
+
+
+def _is_boolean_shape(t):
+    if not isinstance(t, tuple):
+        return False
+    if t[0] in _BOOL_HEADS:
+        return True
+    if t[0] == "sym":
+        return t[2] == BOOL
+    if t[0] == "lit":
+        return t[2] == BOOL
+    if t[0] == "fun":
+        return t[2] == BOOL
+    if t[0] == "Ite":
+        return _is_boolean_shape(t[2])
+    if t[0] == "Select":
+        return False
+    return False
